@@ -851,8 +851,8 @@ impl MaxAckDelay {
 impl TransportParameterValidator for MaxAckDelay {
     fn validate(self) -> Result<Self, DecoderError> {
         decoder_invariant!(
-            *self.0 <= 2u64.pow(14),
-            "max_ack_delay cannot be greater than 2^14"
+            *self.0 < 2u64.pow(14),
+            "max_ack_delay must be less than 2^14"
         );
         Ok(self)
     }
